@@ -382,14 +382,14 @@ func (t *Topo) AddNode() int {
 	return i
 }
 
-// Unreachable closes the listener of a node: from now on connection attempts to its address are
-// refused (a node whose announced address cannot be reached from where the client runs);
-// connections that exist already keep being served, the node keeps its slots.
+// Unreachable makes a node announce an address at which nothing listens (127.0.0.1:1: connection
+// attempts are refused): a node whose announced address cannot be reached from where the client
+// runs.  MOVED/ASK answers and CLUSTER SLOTS/NODES name that address from now on; the node keeps
+// its slots.  (Its real listener stays open and unknown to the client, so that the port cannot be
+// taken over by somebody else's server while the case runs.)
 func (t *Topo) Unreachable(node int) {
-	if ln := t.cl.nodes[node].ln; ln != nil {
-		ln.Close()
-	}
-	t.event("node %d (%s) refuses new connections", node, t.cl.nodes[node].addr)
+	t.cl.nodes[node].addr = "127.0.0.1:1"
+	t.event("node %d announces %s, where connections are refused", node, t.cl.nodes[node].addr)
 }
 
 // SetMigrating puts slot into MIGRATING(to) at its owner and IMPORTING(owner) at `to`
